@@ -6,7 +6,7 @@
 //           sizes, one recording upstream): allocate through every entry point, register
 //           destructors, contains probes, verify, release, destroy/recreate, move-assign,
 //           move-construct.
-//   shared  SharedMonotonicBufferResource / SwissMemoryResource: 2-10 chains of threads
+//   shared  SharedMonotonicBufferResource / SwissMemoryResource: 2-8 chains of threads
 //           (a thread spawns its successor and dies: thread ids and their per-thread
 //           exclusive resources are re-used) allocating concurrently in phases; between
 //           phases (quiescent) the full oracle, release, move.
@@ -924,7 +924,7 @@ void run_shared(uint64_t seed, uint64_t e) {
   w.R->reset(w.ps, "R");
   RecUpstream U;
   w.U = &U;
-  int phases = int(r.range(1, 4));
+  int phases = int(r.range(1, 3));
   std::string pol = vf::draw_policy(r, {"cb:c06_after_allocate"}, 400, 2000);
   if (vf::policy().sleep_per_65536.load() > 64) vf::policy().sleep_per_65536.store(64);
   g_desc = vf::fmt("mode=shared seed=%lu episode=%lu type=%s page=%zu phases=%d policy=[%s]", (unsigned long)seed, (unsigned long)e,
@@ -966,9 +966,9 @@ void run_shared(uint64_t seed, uint64_t e) {
     after_release(w.S, c, U, false, "after release()");
   };
   for (int ph = 0; ph < phases && !vf::failed(); ++ph) {
-    int chains = int(r.range(2, 10));
-    int depth = int(r.below(4));
-    uint64_t nops = r.range(5, 120);
+    int chains = int(r.range(2, 8));
+    int depth = int(r.below(3));
+    uint64_t nops = r.range(5, 150);
     if (chains > 6 && depth > 1) depth = 1;
     oplog(vf::fmt("phase %d: %d chains x %d generations x %lu ops", ph, chains, depth + 1, (unsigned long)nops));
     fp = vf::mix(fp, uint64_t(chains), uint64_t(depth), nops);
